@@ -1,5 +1,6 @@
 SPECIFICATION Spec
 CONSTANTS MaxDecls = 4
+          Placed = FALSE
 INVARIANT AcceptIffValid
 INVARIANT ResolvesToVisible
 INVARIANT Terminates
